@@ -12,7 +12,6 @@ Inductive pst :=
   | SAwait (m : msg)            (* yielded m; the command is running, no response yet *)
   | SCanc (m : msg)             (* yielded m; the command was abandoned (cancelled) without a response *)
   | SGot (m : msg) (r : resp)   (* yielded m; response r recorded *)
-  | SLoose (m : msg)            (* yielded m; the stacks were disturbed while the command was in flight *)
   | SDead.                      (* returned / raised / closed *)
 
 Record mon := { mstate : rstate; mp : pst; mseen : list exn; mother : bool }.
@@ -25,9 +24,7 @@ Definition mon0 : mon := {| mstate := Idle; mp := SNone; mseen := []; mother := 
 
 (* deviations that are reported, not rejected *)
 Inductive flag :=
-  | FlagA      (* a command cancelled by a pause/suspension: the plan receives None in place of its response *)
-  | FlagB      (* a suspension request was rejected after it had pushed its frame while the plan's command was in flight *)
-  | FlagT.     (* a frame was pushed on a paused engine while a command was in flight (excluded by the pc/state typing) *)
+  | FlagA.     (* a command cancelled by a pause/suspension: the plan receives None in place of its response *)
 
 Definition exn_eqb (a b : exn) : bool := if exn_eq_dec a b then true else false.
 Definition val_eqb (a b : val) : bool := if val_eq_dec a b then true else false.
@@ -48,7 +45,6 @@ Definition input_ok (ms : mon) (i : input) : option (list flag) :=
   | SNone, _ => None
   | (SIn | SDead), _ => None
   | _, Close => Some []
-  | SLoose _, _ => Some []
   | SGot _ (RVal v), Send v' => if val_eqb v v' then Some [] else None
   | SGot _ (RVal _), Throw e => if allowed_exn ms e then Some [] else None
   | SGot _ (RExn _), Send _ => None
@@ -107,60 +103,27 @@ Fixpoint mon_list (pid : nat) (ms : mon) (os : list obs) : option (mon * list fl
       end
   end.
 
-Definition is_req_false (o : obs) : bool := match o with OReq false => true | _ => false end.
-
-(* does this task step complete the command the task is suspended in?  (its first plan-related
-   observation is the command's response; a cancelled command never produces one) *)
-Fixpoint completes (os : list obs) : bool :=
-  match os with
-  | [] => false
-  | OResp _ :: _ => true
-  | (OMsg _ | OPlanIn _ _) :: _ => false
-  | _ :: os' => completes os'
-  end.
-
-(* events the monitor looks at: a new call (re)starts the tracked plan or ends its life; a frame pushed
-   while the tracked plan's command is in flight without the task being cancelled loosens the claim *)
-Definition mon_ev (pid : nat) (ms : mon) (e : event) (os : list obs) : mon * list flag :=
+(* events the monitor looks at: a new call (re)starts the tracked plan or ends its life *)
+Definition mon_ev (pid : nat) (ms : mon) (e : event) : mon :=
   match e with
   | EvMain (ACall q) =>
       if rstate_eqb (mstate ms) Idle then
-        if Nat.eqb q pid then ({| mstate := mstate ms; mp := SNone; mseen := []; mother := false |}, [])
-        else (match mp ms with SNone => ms | _ => set_mp ms SDead end, [])
-      else (ms, [])
-  | EvReqSuspend _ _ _ =>
-      match mp ms with
-      | SAwait m =>
-          if existsb is_req_false os then (set_mp ms (SLoose m), [FlagB])
-          else if rstate_eqb (mstate ms) Paused then (set_mp ms (SLoose m), [FlagT])
-          else (ms, [])
-      | _ => (ms, [])
-      end
-  | EvMain AResume =>
-      match mp ms with
-      | SAwait m => if rstate_eqb (mstate ms) Paused then (set_mp ms (SLoose m), [FlagT]) else (ms, [])
-      | _ => (ms, [])
-      end
-  | EvTask =>
-      (* the task is resumed while the tracked plan's command is suspended: it either completes now or was cancelled *)
-      match mp ms with
-      | SAwait m => if completes os then (ms, []) else (set_mp ms (SCanc m), [])
-      | _ => (ms, [])
-      end
-  | _ => (ms, [])
+        if Nat.eqb q pid then {| mstate := mstate ms; mp := SNone; mseen := []; mother := false |}
+        else match mp ms with SNone => ms | _ => set_mp ms SDead end
+      else ms
+  | _ => ms
   end.
 
 Fixpoint chk (pid : nat) (ms : mon) (tr : list (event * list obs)) : option (list flag) :=
   match tr with
   | [] => Some []
   | (e, os) :: tr' =>
-      let '(ms1, f1) := mon_ev pid ms e os in
-      match mon_list pid ms1 os with
+      match mon_list pid (mon_ev pid ms e) os with
       | None => None
       | Some (ms2, f2) =>
           match chk pid ms2 tr' with
           | None => None
-          | Some f3 => Some (f1 ++ f2 ++ f3)
+          | Some f3 => Some (f2 ++ f3)
           end
       end
   end.
@@ -175,12 +138,10 @@ Fixpoint t_run_tr (tapes : list (nat * list tout)) (ledger : list devres)
   end.
 Definition model_tr tapes ledger paus stag rec evs := t_run_tr tapes ledger (init TP nat 0 paus stag rec) evs.
 
-Definition flag_eqb (a b : flag) : bool :=
-  match a, b with FlagA, FlagA | FlagB, FlagB | FlagT, FlagT => true | _, _ => false end.
-Definition has_flag (f : flag) (r : option (list flag)) : bool :=
-  match r with Some l => existsb (flag_eqb f) l | None => false end.
+Definition has_flag (r : option (list flag)) : bool :=
+  match r with Some (_ :: _) => true | _ => false end.
 Definition accepted (r : option (list flag)) : bool := match r with Some _ => true | None => false end.
 
 (* comparison with the implementation-side mirror (harness/props/resp_trace.py) *)
-Definition resp_agree (r : option (list flag)) (acc a b t : bool) : bool :=
-  Bool.eqb (accepted r) acc && Bool.eqb (has_flag FlagA r) a && Bool.eqb (has_flag FlagB r) b && Bool.eqb (has_flag FlagT r) t.
+Definition resp_agree (r : option (list flag)) (acc a : bool) : bool :=
+  Bool.eqb (accepted r) acc && Bool.eqb (has_flag r) a.
